@@ -546,6 +546,9 @@ func runC15(rc *RC) {
 			{"truncated-base64", sid, strconv.Itoa(nextSeq % 65536), []string{"QUJDQQ", "QUJDQ", "Q", "QUJDQQ=", "="}[ch.Int("workload", 5)], "bad-request"},
 			// a packet without data is a packet all the same: out of sequence it is refused
 			{"wrong-seq-empty", sid, strconv.Itoa((nextSeq + 7) % 65536), "", "unexpected-request"},
+			// a sequence number that is no number between 0 and 65535: the packet is undecodable, which is a matter
+			// between the two ends of this stream (a stanza error), not a reason to end the whole session
+			{"seq-not-a-packet-number", sid, []string{"70000", "65536", "-1", "abc", "0x1", "1.5", "99999999999999999999"}[ch.Int("workload", 7)], "QUJD", "bad-request"},
 		}
 		if tailA == 0 && !reverse && len(payload)%3 == 0 {
 			// … and in sequence it uses up its number: the same number once more, now with data, is out of sequence. (The
